@@ -27,7 +27,7 @@ Definition tags_of (c : cfg) : list string :=
       ++ (if c_nb c then ["nonblocking"] else [])
       ++ (if defect_nonblocking_fd_waits c then ["nonblocking_fd_waits"] else [])
   | RAborted => ["model_abort"]
-  | _ => match c_shape c with SConnect => ["connect_eintr_spins"] | _ => ["model_stuck"] end
+  | _ => ["model_stuck"]
   end.
 
 Definition judge_with (ok : cfg -> result -> bool) (c : scase) : verdict :=
@@ -35,4 +35,4 @@ Definition judge_with (ok : cfg -> result -> bool) (c : scase) : verdict :=
   {| v_corr := result_eqb (run_obs cf) impl;
      v_prop := ok cf impl;
      v_tags := tags_of cf;
-     v_note := if wf cf then "" else if wf_input cf then "known-defect-input" else "not-wf" |}.
+     v_note := if wf cf then "" else "not-wf" |}.
